@@ -232,6 +232,14 @@ func (st *vfEtcdStore) putOn(kvs map[string]*vfEKV, r *pb.PutRequest, wrev int64
 	kvs[k] = &vfEKV{key: k, val: string(r.Value), create: wrev, mod: wrev, ve: 1, lease: r.Lease}
 }
 
+// putForeign: a client that is no session of the trace writes key = val without a lease (one new revision)
+func (st *vfEtcdStore) putForeign(key, val string) {
+	st.mu.Lock()
+	defer st.mu.Unlock()
+	st.rev++
+	st.putOn(st.kvs, &pb.PutRequest{Key: []byte(key), Value: []byte(val)}, st.rev)
+}
+
 func (st *vfEtcdStore) deleteOn(kvs map[string]*vfEKV, r *pb.DeleteRangeRequest) int64 {
 	key, end := string(r.Key), string(r.RangeEnd)
 	var n int64
